@@ -1,5 +1,6 @@
 (* Proofs for the async-combinator model (C17). *)
-From Scales Require Import Model.Base Model.Async.
+From Scales Require Import Model.Base.
+From Scales Require Import Model.Async.
 Local Open Scope nat_scope.
 
 (* ---- small list facts -------------------------------------------------------------------------- *)
@@ -868,19 +869,21 @@ Section MapP.
   Proof.
     destruct s as [h l pd u calls]. unfold minv. cbn [m_heap m_linked m_pend m_u m_calls].
     intros (Hs & H0 & H1 & Hl & Hpd & Hu & Hc). subst l pd u calls.
-    unfold m_mapper. cbn. rewrite H1.
+    unfold mstep. cbn [m_heap m_linked m_pend m_u m_calls]. unfold m_mapper. cbn [m_heap m_linked m_pend m_u m_calls]. rewrite H1.
     assert (forall c, shape ch mbase done (hupd h 0 c)) as Hs0.
     { intros c. apply shape_other; [assumption|]. intros j _. apply chain_not_low. unfold mbase. lia. }
     destruct o as [v|e]; cbn.
     - destruct f as [a|x|]; cbn.
-      + unfold u_drain, mfuel; cbn. rewrite H0. cbn. repeat split. apply Hs0.
-      + unfold u_drain, mfuel; cbn. rewrite H0. cbn. repeat split. apply Hs0.
+      + unfold u_drain, mfuel; cbn. rewrite H0. cbn. split; [split; [apply Hs0|repeat split]|reflexivity].
+      + unfold u_drain, mfuel; cbn. rewrite H0. cbn. split; [split; [apply Hs0|repeat split]|reflexivity].
       + unfold u_drain, mfuel; cbn. rewrite H0. cbn.
         pose proof (walk_spec ch mbase done _ cempty (Hs0 {| cval := Some (Ref mbase); cexc := None |})
                       (depth ch) 0 (Datatypes.S (Datatypes.S (depth ch)))) as W.
         cbn in W. specialize (W ltac:(lia) ltac:(lia) ltac:(intros; lia)).
-        apply walked_uinv in W as [W Wp]. repeat split; assumption.
-    - unfold u_drain, mfuel; cbn. rewrite H0. cbn. rewrite H1. cbn. repeat split. apply Hs0.
+        apply walked_uinv in W as [W Wp].
+        split; [split; [apply Hs0|split; [reflexivity|split; [reflexivity|split; [reflexivity|exact W]]]]|exact Wp].
+    - unfold u_drain, mfuel; cbn. rewrite H0. cbn. rewrite H1. cbn.
+      split; [split; [apply Hs0|repeat split]|reflexivity].
   Qed.
 
   Definition m_step_ok (p : phase) (done : list nat) (e : mev) : Prop :=
@@ -896,41 +899,44 @@ Section MapP.
     minv (m_phase_step p e) (m_done_step done e) (mstep f ch s e) /\
     (e = MRun -> u_pend (m_u (mstep f ch s e)) = false).
   Proof.
-    intros Hm He. destruct e as [o|j|].
+    intros Hm He. destruct s as [h l pd u calls]. unfold minv in Hm.
+    cbn [m_heap m_linked m_pend m_u m_calls] in Hm. destruct Hm as [Hs Hp].
+    destruct e as [o|j|].
     - (* the input completes *)
       cbn in He. subst p. split; [|discriminate].
-      destruct s as [h l pd u calls]. cbn in *. destruct Hm as (Hs & H0 & H1 & -> & -> & -> & ->).
+      destruct Hp as (H0 & H1 & Hl & Hpd & Hu & Hc). subst l pd u calls. cbn.
       split; [apply shape_other; [assumption|intros j _; apply chain_not_low; unfold mbase; lia]|].
       unfold hupd; cbn. rewrite H1. repeat split. assumption.
     - (* a level of the chain completes *)
       destruct He as [Hj Hn]. split; [|discriminate].
-      destruct s as [h l pd u calls]. destruct Hm as [Hs Hp]. cbn [m_heap m_linked m_pend m_u m_calls] in *.
       unfold mstep, m_done_step. unfold u_complete_at at 1.
       cbn [m_heap m_linked m_pend m_u m_calls].
       pose proof (shape_complete ch mbase done h j Hs Hj Hn) as Hs'.
       assert (forall k, k < mbase -> hupd h (mbase + j) (cput (h (mbase + j)) (content ch mbase j)) k = h k) as Hlow.
       { intros k Hk. unfold hupd. destruct (Nat.eqb_spec k (mbase + j)); [unfold mbase in *; lia|reflexivity]. }
+      unfold minv. cbn [m_heap m_linked m_pend m_u m_calls].
       split; [exact Hs'|].
       destruct p as [|o|o]; cbn [m_phase_step].
-      + destruct Hp as (H0 & H1 & -> & -> & -> & ->). cbn.
-        rewrite !Hlow by (unfold mbase; lia). repeat split; assumption.
-      + destruct Hp as (H0 & H1 & -> & -> & -> & ->). cbn.
-        rewrite !Hlow by (unfold mbase; lia). repeat split; assumption.
-      + destruct Hp as (-> & -> & -> & Hu). repeat split.
+      + destruct Hp as (H0 & H1 & Hl & Hpd & Hu & Hc). subst l pd u calls. cbn. repeat split; assumption.
+      + destruct Hp as (H0 & H1 & Hl & Hpd & Hu & Hc). subst l pd u calls. cbn. repeat split; assumption.
+      + destruct Hp as (Hl & Hpd & Hc & Hu). subst l pd calls.
+        split; [reflexivity|split; [reflexivity|split; [reflexivity|]]].
         destruct o as [v|e]; [destruct (m_result f v) as [r|]|]; try (rewrite Hu; reflexivity).
         exact (uinv_complete ch mbase done h u j (content ch mbase j) Hu Hj Hn).
     - (* the hub runs *)
       destruct p as [|o|o]; cbn [m_phase_step m_done_step].
-      + split; [|intros _]; destruct s as [h l pd u calls]; cbn in *;
-          destruct Hm as (Hs & H0 & H1 & -> & -> & -> & ->); cbn; [repeat split; assumption|reflexivity].
-      + destruct (mapper_deliver o done s Hm) as [A B]. split; [exact A|intros _; exact B].
-      + destruct s as [h l pd u calls]. destruct Hm as [Hs Hp]. cbn [m_heap m_linked m_pend m_u m_calls] in *.
-        destruct Hp as (-> & -> & -> & Hu). cbn.
+      + destruct Hp as (H0 & H1 & Hl & Hpd & Hu & Hc). subst l pd u calls. cbn.
+        split; [|reflexivity]. split; [assumption|]. repeat split; assumption.
+      + destruct (mapper_deliver o done (mkM h l pd u calls)) as [A B]; [|split; [exact A|intros _; exact B]].
+        unfold minv. cbn [m_heap m_linked m_pend m_u m_calls]. split; assumption.
+      + destruct Hp as (Hl & Hpd & Hc & Hu). subst l pd calls.
+        unfold mstep, minv. cbn [m_heap m_linked m_pend m_u m_calls].
         destruct o as [v|e]; [destruct (m_result f v) as [r|] eqn:Er|].
-        * rewrite Hu. cbn. repeat split; try assumption. now rewrite Er.
+        * rewrite Hu. cbn. split; [split; [assumption|repeat split]|reflexivity].
         * destruct (uinv_drain ch mbase done h u (mfuel ch) Hs Hu) as [Hu' Hp']; [unfold mfuel; lia|].
-          repeat split; try assumption. now rewrite Er.
-        * rewrite Hu. cbn. repeat split; assumption.
+          split; [|intros _; exact Hp'].
+          split; [assumption|split; [reflexivity|split; [reflexivity|split; [reflexivity|exact Hu']]]].
+        * rewrite Hu. cbn. split; [split; [assumption|repeat split]|reflexivity].
   Qed.
 
   Fixpoint m_levels_wf (done : list nat) (evs : list mev) : Prop :=
@@ -976,11 +982,11 @@ Section MapP.
     pose proof (heap_fill_shape ch mbase pre_levels [] _ (shape_empty ch mbase) Hn Hb) as Hs. cbn [app] in Hs.
     set (h0 := heap_fill ch mbase (fun _ => cempty) pre_levels) in *.
     assert (forall k, k < mbase -> h0 k = cempty) as Hlow.
-    { intros k Hk. unfold h0. clear -Hk. generalize (fun _ : nat => @cempty uval) at 1.
+    { intros k Hk. unfold h0. clear -Hk.
       assert (forall l (h : heap), h k = cempty -> heap_fill ch mbase h l k = cempty) as G.
-      { induction l as [|j l IHl]; intros h Hh; cbn; [assumption|]. apply IHl. unfold hupd.
+      { induction l as [|j l IHl]; intros h Hh; cbn [heap_fill]; [assumption|]. apply IHl. unfold hupd.
         destruct (Nat.eqb_spec k (mbase + j)); [unfold mbase in *; lia|assumption]. }
-      intros h. apply G. }
+      apply G. reflexivity. }
     destruct pre_in as [o|]; cbn.
     - split; [apply shape_other; [assumption|intros j _; apply chain_not_low; unfold mbase; lia]|].
       unfold hupd; cbn. rewrite !Hlow by (unfold mbase; lia). repeat split.
@@ -994,4 +1000,56 @@ Section MapP.
     - apply map_call_inv; [now apply NoDup_app_remove_r in Hn|]. intros j Hj. apply Hb, in_or_app. now left.
     - apply m_levels_wf_intro; [assumption|]. intros j Hj. apply Hb, in_or_app. now right.
   Qed.
+  Lemma m_done_app a b : m_done (a ++ b) = m_done a ++ m_done b.
+  Proof. induction a as [|[o|j|] a IH]; cbn; try exact IH; [reflexivity|now rewrite IH]. Qed.
+
+  Lemma m_in_wf_app_l : forall a b p, m_in_wf p (a ++ b) -> m_in_wf p a.
+  Proof. induction a as [|e a IH]; intros b p H; cbn in *; [exact I|]. destruct H as [H1 H2]. split; [assumption|now apply (IH b)]. Qed.
+
+  Lemma mwf_prefix pre_in pre_levels evs : mwf ch pre_in pre_levels (evs ++ [MRun]) -> mwf ch pre_in pre_levels evs.
+  Proof.
+    unfold mwf. rewrite m_done_app. cbn. rewrite app_nil_r. intros (Hn & Hb & Hi).
+    repeat split; try assumption. now apply m_in_wf_app_l in Hi.
+  Qed.
+
+  (* once fn has returned the chain, every level is complete and the hub has run, the result is the
+     innermost outcome *)
+  Theorem map_live pre_in pre_levels evs v : mwf ch pre_in pre_levels (evs ++ [MRun]) ->
+    m_phase pre_in (evs ++ [MRun]) = Delivered (Ok v) -> m_result f v = None ->
+    all_levels ch (pre_levels ++ m_done evs) ->
+    map_ret (map_run f ch pre_in pre_levels (evs ++ [MRun])) = cell_of (term ch).
+  Proof.
+    intros Hw Hph Hres Hall. pose proof (map_run_inv _ _ _ (mwf_prefix _ _ _ Hw)) as Hm.
+    unfold m_phase, map_run in *. rewrite fold_left_app in *. cbn [fold_left] in *.
+    set (p0 := fold_left m_phase_step evs (phase0 pre_in)) in *.
+    set (s := fold_left (mstep f ch) evs (map_call ch pre_in pre_levels)) in *.
+    destruct (minv_step p0 _ s MRun Hm I) as [Hm' Hp]. specialize (Hp eq_refl).
+    cbn [m_done_step] in Hm'. rewrite Hph in Hm'. destruct Hm' as (_ & _ & _ & _ & Hu). rewrite Hres in Hu.
+    unfold map_ret. destruct Hu as (_ & [(w & Hw' & _ & _ & _ & _ & Hp0)|(_ & _ & _ & Ht)]); [|assumption].
+    exfalso. apply (Hp0 Hp). now apply Hall.
+  Qed.
 End MapP.
+
+(* ---- facts used to phrase the property theorems -------------------------------------------------- *)
+Lemma values_nth n D i : i < n -> nth i (values_in_input_order n D) None = value_of D i.
+Proof.
+  intros Hi. unfold values_in_input_order.
+  rewrite (nth_indep _ None (value_of D 0)) by (now rewrite map_length, seq_length).
+  now rewrite map_nth, seq_nth.
+Qed.
+
+Lemma wf_prefix n pre a b : wf n pre (a ++ b) -> wf n pre a.
+Proof.
+  unfold wf. rewrite completions_app, map_app, app_assoc. intros [Hn Hb]. split.
+  - now apply NoDup_app_remove_r in Hn.
+  - intros i Hi. apply Hb, in_or_app. now left.
+Qed.
+
+Lemma delivered_app n pre a b : exists q, delivered n pre (a ++ b) = delivered n pre a ++ sched q b.
+Proof. unfold delivered. apply sched_app. Qed.
+
+Lemma delivered_nil n pre evs : wf n pre evs -> n = 0 -> delivered n pre evs = [].
+Proof.
+  intros H Hn. destruct (wf_delivered n pre evs H) as [_ Hb]. destruct (delivered n pre evs) as [|[i o] D]; [reflexivity|].
+  exfalso. specialize (Hb i (or_introl eq_refl)). lia.
+Qed.
